@@ -36,7 +36,7 @@ def run(ctx):
         n = 60 if ctx.tier == 'quick' else 800
         items = []
         for k in range(n):
-            kinds = ['plain', 'aa-file-at-2', 'watford-hi-start', 'watford-large', 'forge-18', 'side2-catalogue', 'opus', 'aa-empty-file-at-2', 'forge-opus-table', 'plain']
+            kinds = ['plain', 'aa-file-at-2', 'watford-hi-start', 'watford-large', 'forge-18', 'side2-catalogue', 'opus', 'aa-empty-file-at-2', 'forge-opus-table', 'dfs-large', 'plain']
             kind = kinds[k % len(kinds)]      # every kind in every run, whatever the seed
             used = set()
             if kind == 'aa-file-at-2':
@@ -71,6 +71,14 @@ def run(ctx):
                 body[14 * 256:15 * 256] = tbl
                 f = discs.AbsFile(0x24, b'FORGE', False, 0, 0, 2, bytes(body))
                 d.cats[0].files = [x for x in d.cats[0].files if x.start >= 18] + [f]
+            elif kind == 'dfs-large':
+                # an Acorn-style catalogue recording 1440 sectors (bit 10 of the count is bit 2 of sector 1 byte 6) without the Watford
+                # marker; sometimes with a file at sector 2 that begins with the marker bytes: an Acorn disc either way
+                d = discs.AbsDisc('dfs', 80, 18)
+                fs_ = [discs.AbsFile(0x24, b'ONE', False, 0, 0, 2, (b'\xAA' * 8 if k % 2 else b'') + r.bytes(700)),
+                       discs.AbsFile(0x24, b'TWO', False, 0, 0, 1100, r.bytes(300))]
+                fs_.reverse()
+                d.cats = [discs.AbsCat(b'BIGDFS', 0, 0, 1440, fs_)]
             elif kind == 'watford-hi-start':
                 d = discs.AbsDisc('wdfs', 80, 18)
                 st = r.choice([0x102, 0x202, 0x302])
